@@ -372,6 +372,7 @@ func c03Exhaustive(t *testing.T, rec func(c C03Case, v Verdict) bool) (n int) {
 					}
 					c := C03Case{Value: ref.S(val), Carrier: car, NsMode: m[0], TmplMode: m[1], CalleeNs: m[0], CalleeMode: m[1], Chain: ch}
 					n++
+					histLog(c)
 					if !rec(c, checkC03(c)) {
 						return n
 					}
